@@ -39,7 +39,7 @@ fn main() {
         sh.case(if trivial { None } else { Some(fnv_mix(fnv(&image), image.len() as u64)) });
         let chunk = if rng.bool() { 4 } else { 8 };
         probe_queries(&mut sh, case, kind, &image, chunk);
-        if rng.chance(1, 40) {
+        if rng.chance(1, 40) && args.extra_u64("no-init", 0) == 0 {
             init_on_device(&mut sh, case, kind, &image, &mut rng);
         }
         if sh.wants_sample() && kind != "random" && case > 3 {
